@@ -94,6 +94,8 @@ func (e *Eval) resolve(typ string, src interface{}, n *qgen.Node) (interface{}, 
 			return uservalue{d.Friend(u)}, nil
 		case "score":
 			return float64(d.Score(u)), nil
+		case "ack":
+			return true, nil
 		case "fav":
 			return thingvalue{d.Fav(u)}, nil
 		case "best":
